@@ -375,7 +375,7 @@ def run(ctx):
             if mm and magic not in mm.group(1) + magic[:-1] and int(mm.group(2)) <= 255 and crash is None:
                 want = "%d" % int(mm.group(2))      # only the code: what is left of the line is C05/C06's business
                 if ans[0].split(" ")[0] != want:
-                    ctx.offender("xrc:marker-after-text" if mm.group(1) else "xrc:plain",
+                    ctx.offender("xrc:marker-after-text" if mm.group(1) and ans[0] == m else "xrc:unexplained",
                                  "_extract_rc(%r) = `%s`, the marker line denotes `%s`" % (l, ans[0], want),
                                  {"op": "xrc", "line_hex": hexs(l), "line": l.decode("latin1"), "impl": ans[0],
                                   "expected": want})
@@ -443,7 +443,7 @@ def run(ctx):
             if ans[0] != m:
                 ctx.disagreement("exit model vs dsh()", "impl `%s` model `%s`" % (ans[0], m), {"harness_op": h, "model_op": m_in})
             if dom and sp != "ok":
-                bad.append((s, h, m_in, ans[0], spl))
+                bad.append((s, h, m_in, ans[0], spl, exit_of(m) == exit_of(ans[0])))
         report_bad(ctx, bad, bits, "dsh()")
         # ---- (d) the real binary ----------------------------------------------------------------
         repo = ctx.repo_build()
@@ -481,7 +481,7 @@ def run(ctx):
                 if len(cov["samples"]) < 5 and len(s["hosts"]) <= 2:
                     cov["samples"].append({"argv": [os.path.basename(a) if "/" in a else a for a in av], "exit": rc})
                 if sp != "ok":
-                    bad.append((s, " ".join(av), ml_, "exit %d" % rc, spl))
+                    bad.append((s, " ".join(av), ml_, "exit %d" % rc, spl, exit_of(m) == rc))
             report_bad(ctx, bad, bits, "pdsh")
             for r, (rc, errtxt) in zip(REFUSED, res[len(cs):]):
                 cov["evaluations"] += 1
@@ -512,8 +512,11 @@ def run(ctx):
 
 def report_bad(ctx, bad, bits, where):
     """offenders: the real exit status is not admissible; signature = which proposed repair(s) would make it so"""
-    sigs = attribute(ctx, [(m_in, spl.rsplit(" ", 1)[0]) for _, _, m_in, _, spl in bad], bits)
-    for (s, h, m_in, ans, spl), fixset in zip(bad, sigs):
+    sigs = attribute(ctx, [(m_in, spl.rsplit(" ", 1)[0]) for _, _, m_in, _, spl, _ in bad], bits)
+    for (s, h, m_in, ans, spl, model_agrees), fixset in zip(bad, sigs):
+        if not model_agrees:
+            # the model does not reproduce this exit status, so none of the modelled defects explains it
+            fixset = "unexplained"
         flags = ("S" if s["S"] else "") + ("k" if s["k"] else "") or "plain"
         outs = ",".join(tok(hh["outcome"]) + ("/" + hh["chan"] if hh["chan"] != "raw" else "") for hh in s["hosts"])
         ctx.offender("%s:needs-fix:%s" % (flags, fixset),
